@@ -37,8 +37,8 @@ OWN = {"MatchSetExact", "Distinct", "ScoreOrdered", "LimitSubset", "LimitCount",
        "TableDiverged", "StepFailed"}
 # classes of matching-set errors that describe one named deviation of the as-built code (see TextQueryOps.tla)
 DEVIATION = {
-    ("and-matched-on-some-terms", "indexed"): "AndDropsAbsentTerm",
-    ("must-not-and-matched-on-some-terms", "indexed"): "AndDropsAbsentTerm",
+    ("and-ignored-absent-term", "indexed"): "AndDropsAbsentTerm",
+    ("must-not-and-ignored-absent-term", "indexed"): "AndDropsAbsentTerm",
     ("and-matched-on-some-terms", "unindexed"): "FlatAndIsOr",
     ("must-not-and-matched-on-some-terms", "unindexed"): "FlatAndIsOr",
     ("phrase-missed", "unindexed"): "PhraseSkipsUnindexed",
@@ -224,7 +224,7 @@ def run(prop, tier, replay):
         if not hists or len(queries) < 100 or set(by_kind) != {"match-or", "match-and", "phrase", "bool"}:
             raise vlib.ToolError("scenario generation produced nothing")
         useful = [h for h in hists if any(s["op"] == "index" for s in h)]
-        nscn = 120 if quick else 1500
+        nscn = 120 if quick else 1000
 
         def after_index(h, op):
             i = next((j for j, s in enumerate(h) if s["op"] == "index"), None)
